@@ -25,6 +25,24 @@ Definition seq_len (s : bioseq) : Z := Z.of_nat (length (data s)).
 (* __eq__, seq.py:250-253 *)
 Definition seq_eq_str (s : bioseq) (t : str) : bool := str_eqb (data s) t.
 Definition seq_eq_seq (s t : bioseq) : bool := str_eqb (data s) (data t) && str_eqb (sid s) (sid t).
+(* __eq__ against an arbitrary Python object (rendered as a [val]): only a str can be equal, and then by
+   exact (case-sensitive) comparison of the characters; None, numbers, tuples, lists, bytes, object() are unequal *)
+Definition seq_eq_val (s : bioseq) (o : val) : bool :=
+  match o with VS t => str_eqb (data s) t | _ => false end.
+(* list.__contains__ / count / index / == over the basket elements (UserList delegates to the list of BioSeq) *)
+Definition basket_contains (b : list bioseq) (o : val) : bool := existsb (fun s => seq_eq_val s o) b.
+Definition basket_count (b : list bioseq) (o : val) : nat := length (filter (fun s => seq_eq_val s o) b).
+Fixpoint basket_index (b : list bioseq) (o : val) (k : Z) : option Z :=
+  match b with
+  | [] => None                                      (* ValueError *)
+  | s :: r => if seq_eq_val s o then Some k else basket_index r o (k + 1)
+  end.
+Fixpoint basket_eq_list (b : list bioseq) (os : list val) : bool :=
+  match b, os with
+  | [], [] => true
+  | s :: r, o :: os' => seq_eq_val s o && basket_eq_list r os'
+  | _, _ => false
+  end.
 (* __add__, seq.py:269-272: self.__class__(self.data + str(other), meta=self.meta) *)
 Definition seq_add (s : bioseq) (other : str) : bioseq := new_seq (data s ++ other) (sid s).
 (* __radd__, seq.py:280-281 *)
@@ -360,6 +378,8 @@ Inductive op :=
 | BSetSl (b : list str) (sl : pyslice) (vs : list str)
 | BSetSlJ (b : list str) (sl : pyslice) (j : index) (v : str)
 | BSetIJ (b : list str) (i : Z) (j : index) (v : str)
+| OEqVal (s : str) (o : val)
+| BEqVal (b : list str) (o : val) (os : list val)
 | OHist (s : str) (hs : list hstep)
 | BHist (b : list str) (x : str) (hs : list bstep).
 
@@ -371,6 +391,7 @@ Definition opt_ascii (g : option str) : bool := match g with None => true | Some
    slices (DESIGN 7 C04: "step <> 1 with gap=" is not claimed); data set behind the constructor's back must be
    upper case (the constructor normalises; slicing re-normalises); + and right-+ only with an operand without
    lower-case letters; letter counts only for a non-empty basket. *)
+Definition val_ascii (o : val) : bool := match o with VS t => all_ascii t | _ => true end.
 Definition wf_C04 (o : op) : bool :=
   match o with
   | OLen s | OGc s => all_ascii s
@@ -391,6 +412,8 @@ Definition wf_C04 (o : op) : bool :=
   | BSetI b _ v => forallb all_ascii b && all_ascii v
   | BSetSl b _ vs => forallb all_ascii b && forallb all_ascii vs
   | BSetSlJ b _ _ v | BSetIJ b _ _ v => forallb all_ascii b && all_ascii v
+  | OEqVal s o => all_ascii s && val_ascii o
+  | BEqVal b o os => forallb all_ascii b && val_ascii o && forallb val_ascii os
   | OHist s hs => all_ascii s && forallb hstep_wf hs
   | BHist b x hs => forallb all_ascii b && all_ascii x && forallb bstep_wf hs
   end.
@@ -426,6 +449,12 @@ Definition run_op (o : op) : val :=
   | BSetSl b sl vs => show_res show_basket (basket_set_slice (mk_basket b) sl vs)
   | BSetSlJ b sl j v => show_res show_basket (basket_set_slj (mk_basket b) sl j v)
   | BSetIJ b i j v => show_res show_basket (basket_set_ij (mk_basket b) i j v)
+  | OEqVal s o => let e := seq_eq_val (mk false s) o in VL [VB e; VB (negb e); VB e]
+  | BEqVal b o os =>
+      let bb := mk_basket b in
+      VL [VB (basket_contains bb o); VI (Z.of_nat (basket_count bb o));
+          match basket_index bb o 0 with Some k => VI k | None => VE (bs "ValueError"%bs) end;
+          VB (basket_eq_list bb os)]
   | OHist s hs => VL (hist_run (mk false s) hs)
   | BHist b x hs => VL (bhist_run (mk_basket b, mk false x) hs)
   end.
